@@ -19,7 +19,8 @@
    The correspondence (deep + end-to-end) ties the function [layout] to the implementation on the generated
    cases; the direct oracle repeats calls in one process and compares byte-wise, and checks the inputs after. *)
 From Coq Require Import String List Bool.
-From Autog Require Import Facts FactsChecks.
+From Coq Require Import QArith Permutation.
+From Autog Require Import Graph Phase2 Phase4 Facts FactsChecks Determinism Scale.
 Import ListNotations.
 
 Theorem C07_map_ranges_are_covered : map_order_sites_covered = true /\ mapkeys_absent = true.
@@ -37,3 +38,25 @@ Print Assumptions C07_inputs_not_written.
 Theorem C07_no_hidden_state : globals_known = true /\ writes_guarded = true /\ monitor_state_private = true.
 Proof. repeat split; vm_compute; reflexivity. Qed.
 Print Assumptions C07_no_hidden_state.
+
+(* the covered map ranges: the order of iteration is irrelevant *)
+(* feasibleTree: for n := range treeNodes { n.Layer += d } *)
+Theorem C07_site_shift_layers : forall l l' d g, Permutation l l' -> NoDup l ->
+  fold_left (fun g n => upd_node g n (fun nd => set_layer (n_layer nd + d)%Z nd)) l g =
+  fold_left (fun g n => upd_node g n (fun nd => set_layer (n_layer nd + d)%Z nd)) l' g.
+Proof. exact shift_layers_perm. Qed.
+Print Assumptions C07_site_shift_layers.
+
+(* execSinkColoring: for n, x := range xcoord { blockmax[roots[n]] = max(blockmax[roots[n]], x) } — and the whole
+   positioner run with any permutation of that iteration gives the same error or an equivalent graph *)
+Theorem C07_site_blockmax : forall nodes nodes' s g, Permutation nodes nodes' ->
+  res_rel graph_equiv (exec_sink_coloring_on nodes s g) (exec_sink_coloring_on nodes' s g).
+Proof. exact exec_sink_coloring_perm. Qed.
+Print Assumptions C07_site_blockmax.
+
+(* Brandes-Koepf xcoordinates.Size: running min / max over the map *)
+Theorem C07_site_minmax : forall (l l' : list (Q * Q)) a, Permutation l l' ->
+  (fst (fold_left minmax_step l a) == fst (fold_left minmax_step l' a))%Q /\
+  (snd (fold_left minmax_step l a) == snd (fold_left minmax_step l' a))%Q.
+Proof. exact minmax_perm. Qed.
+Print Assumptions C07_site_minmax.
